@@ -35,15 +35,19 @@ class St:
 
 
 def build(init):
-    depth, shape, spec, via, poslevels = init
+    depth, shape, spec, via, poslevels = init[:5]
     S = St()
     S.depth, S.shape, S.via, S.poslevels = depth, shape, via, poslevels
+    # optional 6th element: the tensor's leaf default (the fibers themselves are built with default 0);
+    # such families only read and take references (the value alphabet {0,1,2} is then all non-default)
+    S.default = init[5] if len(init) > 5 else 0
+    S.readonly = S.default != 0
     ids = RANK_IDS[:depth]
     if spec is None:
-        S.T = Tensor(rank_ids=list(ids), shape=list(shape))
+        S.T = Tensor(rank_ids=list(ids), shape=list(shape), default=S.default)
     else:
-        S.T = Tensor.fromFiber(list(ids), mktree(spec, depth, tag=0), shape=list(shape))
-    S.model = dict(content(S.T.getRoot()))
+        S.T = Tensor.fromFiber(list(ids), mktree(spec, depth, tag=0), shape=list(shape), default=S.default)
+    S.model = dict(content(S.T.getRoot(), S.default))
     S.handles = []
     return S
 
@@ -82,12 +86,14 @@ def ops(S):
                 out.append(("get", pt, mode))
             if ln < d:
                 out.append(("ref", pt, "none"))
-                if ln == d - 1:
+                if ln == d - 1 and not S.readonly:
                     # fiber assignment through the handle of a partial point
                     for i in range(len(ASSIGN)):
                         out.append(("ref", pt, "asg%d" % i))
+            elif S.readonly:
+                out.append(("ref", pt, "none"))
             else:
-                cur = S.model.get(pt, 0)
+                cur = S.model.get(pt, S.default)
                 acts = ["none", "set1", "set0", "keep"]
                 if cur < VMAX:
                     acts.append("inc")
@@ -145,7 +151,7 @@ def step(S, op):
                 V("getPayload", "read-mutated-tree", b, _snap(T), "mode:" + mode, "len:%d" % len(pt))
             present = _stored_at(T, pt) is not None
             if len(pt) == S.depth:
-                exp = S.model.get(pt, 0)
+                exp = S.model.get(pt, S.default)
                 if mode == "alloc" or present:
                     ok = isinstance(r, Payload) and r.value == exp
                 elif mode == "noalloc":
@@ -159,8 +165,8 @@ def step(S, op):
             else:
                 sub = _sub_model(S.model, pt)
                 if isinstance(r, Fiber):
-                    if content(r) != sub:
-                        V("getPayload", "prefix-content", sub, content(r), "mode:" + mode)
+                    if content(r, S.default) != sub:
+                        V("getPayload", "prefix-content", sub, content(r, S.default), "mode:" + mode)
                     if present and r is not _stored_at(T, pt):
                         V("getPayload", "prefix-not-stored-fiber", None, None, "mode:" + mode)
                 elif present or mode == "alloc":
@@ -185,8 +191,8 @@ def step(S, op):
             if len(pt) == S.depth:
                 if not isinstance(r, Payload):
                     V("getPayloadRef", "leaf-not-boxed", None, repr(r))
-                elif r.value != S.model.get(pt, 0):
-                    V("getPayloadRef", "value", S.model.get(pt, 0), r.value)
+                elif r.value != S.model.get(pt, S.default):
+                    V("getPayloadRef", "value", S.model.get(pt, S.default), r.value)
                 if act == "set1":
                     r <<= 1
                     S.model[pt] = 1
@@ -195,7 +201,7 @@ def step(S, op):
                     S.model.pop(pt, None)
                 elif act == "inc":
                     r += 1
-                    S.model[pt] = S.model.get(pt, 0) + 1
+                    S.model[pt] = S.model.get(pt, S.default) + 1
                 elif act == "mul2":
                     r *= 2
                     S.model[pt] = S.model[pt] * 2
@@ -207,8 +213,8 @@ def step(S, op):
                         S.model[pt] -= 1
                 elif act == "keep":
                     S.handles = (S.handles + [(pt, r)])[-2:]
-            if content(T.getRoot()) != S.model:
-                V("getPayloadRef", "content", dict(S.model), content(T.getRoot()), "act:" + act)
+            if content(T.getRoot(), S.default) != S.model:
+                V("getPayloadRef", "content", dict(S.model), content(T.getRoot(), S.default), "act:" + act)
         elif k == "hwrite":
             _, i, val = op
             pt, h = S.handles[i]
@@ -217,8 +223,8 @@ def step(S, op):
                 S.model[pt] = val
             else:
                 S.model.pop(pt, None)
-            if content(T.getRoot()) != S.model:
-                V("handle-write", "content", dict(S.model), content(T.getRoot()))
+            if content(T.getRoot(), S.default) != S.model:
+                V("handle-write", "content", dict(S.model), content(T.getRoot(), S.default))
             got = acc.getPayload(*pt)
             if unbox(got) != val:
                 V("handle-write", "later-read", val, unbox(got))
@@ -239,28 +245,28 @@ def step(S, op):
                 r = f.getPositionRef(c, start_pos=sp)
                 if r is None or r >= len(f.coords) or f.coords[r] != c:
                     V("getPositionRef", "wrong-position", c, r, sfeat)
-                if content(T.getRoot()) != S.model:
-                    V("getPositionRef", "content", dict(S.model), content(T.getRoot()), sfeat)
+                if content(T.getRoot(), S.default) != S.model:
+                    V("getPositionRef", "content", dict(S.model), content(T.getRoot(), S.default), sfeat)
             elif k == "getsp":
                 r = f.getPayload(c, start_pos=sp)
                 if _snap(T) != b:
                     V("getPayload", "read-mutated-tree", b, _snap(T), sfeat)
                 if leaf:
-                    exp = S.model.get(path + (c,), 0)
+                    exp = S.model.get(path + (c,), S.default)
                     if not isinstance(r, Payload) or r.value != exp:
                         V("getPayload", "value", exp, repr(r), sfeat)
                 else:
                     sub = _sub_model(S.model, path + (c,))
-                    if not isinstance(r, Fiber) or content(r) != sub:
+                    if not isinstance(r, Fiber) or content(r, S.default) != sub:
                         V("getPayload", "prefix-content", sub, repr(r), sfeat)
             else:
                 r = f.getPayloadRef(c, start_pos=sp)
                 if _stored_at(T, path + (c,)) is not r:
                     V("getPayloadRef", "not-aliased", None, repr(r), sfeat)
-                if leaf and isinstance(r, Payload) and r.value != S.model.get(path + (c,), 0):
-                    V("getPayloadRef", "value", S.model.get(path + (c,), 0), r.value, sfeat)
-                if content(T.getRoot()) != S.model:
-                    V("getPayloadRef", "content", dict(S.model), content(T.getRoot()), sfeat)
+                if leaf and isinstance(r, Payload) and r.value != S.model.get(path + (c,), S.default):
+                    V("getPayloadRef", "value", S.model.get(path + (c,), S.default), r.value, sfeat)
+                if content(T.getRoot(), S.default) != S.model:
+                    V("getPayloadRef", "content", dict(S.model), content(T.getRoot(), S.default), sfeat)
     except Exception as ex:
         V({"get": "getPayload", "ref": "getPayloadRef", "hwrite": "handle-write", "pos": "getPosition",
            "posref": "getPositionRef", "getsp": "getPayload", "refsp": "getPayloadRef"}[k],
@@ -329,6 +335,12 @@ def run(ctx):
     # depth 1, shape 3, via the root fiber, every start_pos
     d1 = [None, ('0', '1', '-'), ('-', '0', '2')]
     fams.append(("d1-3-viaF", [(1, (3,), s, "F", (0,)) for s in d1], None))
+    # leaf default 5 over fibers built with default 0, explicitly empty rows / empty interior fibers
+    d2e = [((), ('1', '0')), (('-', '-'), ('0', '-')), (('1', '-'), ('-', '-'))]
+    fams.append(("d2-2x2-default5", [(2, (2, 2), s, "T", (0, 1), 5) for s in d2e], None))
+    d3e = [((None, None), (('1', '-'), None)), ((('-', '-'), None), (None, None))]
+    fams.append(("d3-2x2x2-default5", [(3, (2, 2, 2), s, "T", (0,), 5) for s in d3e], 3 if q else 5))
+    fams.append(("d3-2x2x2-empty-interior", [(3, (2, 2, 2), s, "T", ()) for s in d3e], 2 if q else 3))
     if q:
         fams.append(("d2-2x2-viaF", [(2, (2, 2), s, "F", (1,)) for s in d2[:2]], 3))
         fams.append(("d3-2x2x2-viaT", [(3, (2, 2, 2), None, "T", ()),
